@@ -148,7 +148,7 @@ def main(run):
         run.count("%s diag=%d" % (kind, d))
         _oracle(run, info, om, tet_c, res)
 
-    ncase = 60 if thorough else 14
+    ncase = 200 if thorough else 14
     for c in range(ncase):
         d = c % 4
         mesh = [rng.randint(2, 4)] * 3  # isotropic: the test lattices keep their shortest main diagonal
@@ -184,7 +184,7 @@ def main(run):
 
     # designated arrays: every ordering of four distinct values in every tetrahedron slot
     perms = list(itertools.permutations(range(4)))
-    nd = 8 if thorough else 4
+    nd = 24 if thorough else 4
     for c in range(nd):
         d = c % 4
         base = sorted(rng.sample(range(1, 40), 4))
@@ -358,7 +358,7 @@ def _field_oracle(run, rng, field, mesh, rel, d, style):
 
 def _end_to_end(run, rng, thorough):
     names = ["cscl", "nacl_prim", "zincblende_prim", "hcp", "bct", "rhombo", "mono_P"]
-    n = 5 if thorough else 2
+    n = 10 if thorough else 2
     for _ in range(n):
         name = rng.choice(names)
         cell, cen = gen.make_cell(name)
